@@ -3,7 +3,7 @@ import random
 import time
 
 from .sched import S
-from .common import base_knobs, liveness_bound, FL
+from .common import gen_stalls, base_knobs, liveness_bound, FL
 
 
 def poll_instants(ad, n=14):
@@ -18,6 +18,7 @@ def poll_instants(ad, n=14):
 def gen(seed, tier):
     rng = random.Random(seed)
     knobs = base_knobs(rng, tier)
+    knobs["stalls"] = gen_stalls(rng)
     ad = knobs["accept_delay"] = rng.choice([0.01, 0.1, 0.25, 1.0])
     nphases = rng.choice([1, 2, 2, 3, 3, 4])
     payloads, phases = [], []
@@ -149,11 +150,11 @@ def check(h, reason):
                     V("C12/second-accept-disturbed/ended", "the active runner's accept() ended (%s) after the rejected concurrent accept, before anyone stopped it" % ended["how"])
                 if trig is not None:
                     hb = [e for e in pe if e["kind"] == "hb" and e["pid"] == "hb%d" % i and sr["seq"] < e["seq"] < trig["seq"]]
-                    if not hb:
+                    if not hb and S.stall_total == 0:  # an injected stall of the loop thread silences heartbeats legitimately
                         V("C12/second-accept-disturbed/heartbeat", "heartbeat payload of the active runner stopped ticking after the rejected concurrent accept")
                     late = [e for e in pe if e["kind"] == "start" and e["pid"] == "late%d" % i and e["seq"] < trig["seq"]]
                     lret = [e for e in pe if e["kind"] == "adopt-returned" and e["pid"] == "late%d" % i]
-                    if lret and not late:
+                    if lret and not late and S.stall_total == 0:
                         V("C12/second-accept-disturbed/adopt", "a payload adopted by the active runner after the rejected concurrent accept never started")
         if trig is None:
             break
